@@ -2169,7 +2169,9 @@ def _config_str(
     if _REGISTRY[selector].is_method:
       method_name = parts.pop(0)
       parts[0] += f'.{method_name}'  # parts[0] is the class name.
-    return parts
+    # Break ties between names that only differ in case, so that the output
+    # doesn't depend on the order in which bindings were made.
+    return parts, selector, scope
 
   import_manager = ImportManager(_IMPORTS)
   if import_manager.dynamic_registration:
